@@ -477,8 +477,22 @@ def explore(live, r, n_worlds, per_world, corpus=()):
         for _ in range(per_world.get('deep', 0)):
             add_eval(gen_deep(r, w['maxNesting']), 'deep', check_full=full_applicable(w))
         names = sorted(set(BARE + [x for rec in live.records for x in rec[4][:6]] + [rec[2].lower() for rec in live.records]))
+        def qualified():
+            # a (possibly nested) plugin / group path followed by one of its methods
+            rec = r.choice(live.records)
+            path = []
+            cur = rec
+            while cur is not None:
+                path.insert(0, cur[2])
+                cur = live.records[cur[1]] if cur[1] is not None else None
+            if r.random() < 0.3: path = path[1:]
+            meth = r.choice(rec[4]) if rec[4] and r.random() < 0.85 else r.choice(names)
+            return [r.choice([x, x.lower(), x.upper()]) for x in path] + [meth]
         for _ in range(per_world.get('disp', 0)):
-            args = [r.choice(names) if r.random() < 0.9 else r.choice(LITS) for _ in range(r.choice([1, 1, 2, 2, 3, 4]))]
+            if r.random() < 0.45:
+                args = qualified() + [r.choice(LITS) for _ in range(r.choice([0, 1, 2]))]
+            else:
+                args = [r.choice(names) if r.random() < 0.9 else r.choice(LITS) for _ in range(r.choice([1, 1, 2, 2, 3, 4]))]
             if r.random() < 0.02: args = []
             out, found = live.find(args)
             ok = True; msg = ''
@@ -544,13 +558,13 @@ def load_corpus():
     except OSError:
         return []
 
-QUICK = dict(full=25, mixed=45, deep=8, disp=60, canon=10)
+QUICK = dict(full=30, mixed=60, deep=10, disp=80, canon=10)
 
 def run(ctx):
     build = leanbuild.ensure(PROPERTY, THEOREMS, thorough=ctx.thorough)
     live = Live()
     r = rng.make('c14')
-    n_worlds = 400 if ctx.thorough else 24
+    n_worlds = 1500 if ctx.thorough else 60
     clp = explore(live, r, n_worlds, QUICK, load_corpus())
     cases = fill(*clp) if build.driver_ok else clp[0]
     def search(disagreements, broken):
